@@ -307,6 +307,12 @@ func c09Pacing(c *Ctx) {
 			for i := 0; i < c.N(1, 6); i++ {
 				jobs = append(jobs, job{as, rep, 5 + c.Rng.Intn(40), a.SegmentDurMS * c.Rng.Pick(2, 3) / 4 / 125 * 125, c.Rng.Pick(0, 1, 100, 400)})
 			}
+			// chunks of about one sample (not a whole number of milliseconds: 21.33 ms AAC frames, 33.3 ms pictures), asked
+			// for 300 ms before the segment ends: many release instants, where rounding must not add up
+			if a.SegmentDurMS > 400 {
+				ato := a.SegmentDurMS - c.Rng.Pick(22, 34, 45)
+				jobs = append(jobs, job{as, rep, 5 + c.Rng.Intn(40), ato, ato - 300})
+			}
 		}
 	}
 	var wg sync.WaitGroup
